@@ -526,6 +526,10 @@ where
         Self::Commitment: 'a,
     {
         let check_time = start_timer!(|| "Checking evaluations");
+        // One witness commitment per variable
+        if proof.w.len() != vk.num_vars {
+            return Err(Error::InvalidNumberOfVariables);
+        }
         // Accumulate commitments and values
         let (combined_comm, combined_value) =
             Marlin::<E, P, Self>::accumulate_commitments_and_values(
@@ -597,6 +601,11 @@ where
             .zip(proof)
         {
             let w = &proof.w;
+            // A surplus witness (times a surplus coordinate of the point) would be folded into
+            // the commitment side below without ever reaching the pairing check.
+            if w.len() != vk.num_vars {
+                return Err(Error::InvalidNumberOfVariables);
+            }
             let mut temp: E::G1 = ark_std::cfg_iter!(w)
                 .enumerate()
                 .map(|(j, w_j)| w_j.mul(z[j]))
